@@ -26,7 +26,7 @@ for c in ("rwdi", "dbg", "fence16"):
     jobs.append(("subj_lowlevel", c, NA))
 for c in ("rwdi", "dbg", "tsm1"):
     jobs.append(("subj_temp", c, NA))
-jobs += [("subj_arith", "rwdi", NA), ("subj_locks", "rwdi", NA), ("subj_container", "rwdi", NA)]
+jobs += [("subj_arith", "rwdi", NA), ("subj_locks", "rwdi", []), ("subj_container", "rwdi", NA)]
 
 
 def one(j):
